@@ -102,7 +102,7 @@ fn make_real_tree(sc: &Scenario) -> std::io::Result<()> {
     let _ = std::fs::remove_dir_all(&root);
     std::fs::create_dir_all(&root)?;
     for f in &sc.files {
-        if !f.exists {
+        if !f.exists || sc.hardlinks.iter().any(|(alias, _)| *alias == f.path) {
             continue;
         }
         let p = std::path::Path::new(&root).join(&f.path);
@@ -117,6 +117,16 @@ fn make_real_tree(sc: &Scenario) -> std::io::Result<()> {
             std::os::unix::fs::symlink(&target, &p)?;
         } else {
             std::fs::write(&p, b"")?;
+        }
+    }
+    for (alias, target) in &sc.hardlinks {
+        let a = std::path::Path::new(&root).join(alias);
+        let t = std::path::Path::new(&root).join(target);
+        if let Some(parent) = a.parent() {
+            std::fs::create_dir_all(parent)?;
+        }
+        if t.exists() {
+            std::fs::hard_link(&t, &a)?;
         }
     }
     for rf in &sc.real_files {
